@@ -60,7 +60,7 @@ theorem push_origin (a : Acc) (r : TyRef) (loc : String) (e : Entry) (he : e ∈
 
 /-- the global is one the loop matches, with element reference `r` -/
 def GlobalHit (g : Global) (r : TyRef) : Prop :=
-  ∃ k, removeModifier g.ty = .object k (some r) ∧ checkedObjects.contains k = true
+  ∃ k, peel globalPeelOps g.ty = .object k (some r) ∧ checkedObjects.contains k = true
 
 theorem stepGlobal_mono (a : Acc) (g : Global) (e : Entry) (he : e ∈ a.list) : e ∈ (stepGlobal a g).list := by
   unfold stepGlobal
@@ -136,7 +136,8 @@ theorem foldl_origin (gs : List Global) (a : Acc) (e : Entry) (he : e ∈ (gs.fo
 
 /-- the function is one the loop matches, with type argument `r` -/
 def FnHit (f : Fn) (r : TyRef) : Prop :=
-  ∃ i, f.intrinsic = some i ∧ checkedIntrinsics.contains i = true ∧ f.template = some [.type r]
+  ∃ i, f.intrinsic = some i ∧ checkedIntrinsics.contains i = true ∧ f.template = some [.type r] ∧
+    (fnLoopSkipsDependent && isDependent r.ty) = false
 
 theorem stepFn_mono (a a' : Acc) (f : Fn) (h : stepFn a f = .ok a') (e : Entry) (he : e ∈ a.list) :
     e ∈ a'.list := by
@@ -147,7 +148,9 @@ theorem stepFn_mono (a a' : Acc) (f : Fn) (h : stepFn a f = .ok a') (e : Entry) 
     · cases h; exact he
     · split at h
       · cases h; exact he
-      · cases h; exact push_list_mono a _ _ e he
+      · split at h
+        · cases h; exact he
+        · cases h; exact push_list_mono a _ _ e he
       · cases h
 
 theorem stepFn_inv (a a' : Acc) (hi : Inv a) (f : Fn) (h : stepFn a f = .ok a') : Inv a' := by
@@ -158,15 +161,17 @@ theorem stepFn_inv (a a' : Acc) (hi : Inv a) (f : Fn) (h : stepFn a f = .ok a') 
     · cases h; exact hi
     · split at h
       · cases h; exact hi
-      · cases h; exact push_inv a hi _ _
+      · split at h
+        · cases h; exact hi
+        · cases h; exact push_inv a hi _ _
       · cases h
 
 theorem stepFn_hit (a a' : Acc) (hi : Inv a) (f : Fn) (h : stepFn a f = .ok a') (r : TyRef) (hh : FnHit f r) :
     ∃ e ∈ a'.list, e.ref.id = r.id := by
-  obtain ⟨i, h1, h2, h3⟩ := hh
+  obtain ⟨i, h1, h2, h3, h4⟩ := hh
   unfold stepFn at h
   rw [h1] at h
-  simp only [h2, Bool.not_true, Bool.false_eq_true, if_false, h3] at h
+  simp only [h2, Bool.not_true, Bool.false_eq_true, if_false, h3, h4] at h
   cases h
   exact push_has a hi r _
 
@@ -182,10 +187,13 @@ theorem stepFn_origin (a a' : Acc) (f : Fn) (h : stepFn a f = .ok a') (e : Entry
       split at h
       · cases h; exact Or.inl he
       · rename_i r ht
-        cases h
-        rcases push_origin a r _ e he with h | h
-        · exact Or.inl h
-        · exact Or.inr ⟨i, hi, by simpa using hc, by rw [h]; exact ht⟩
+        split at h
+        · cases h; exact Or.inl he
+        · rename_i hd
+          cases h
+          rcases push_origin a r _ e he with h | h
+          · exact Or.inl h
+          · exact Or.inr ⟨i, hi, by simpa using hc, by rw [h]; exact ht, by rw [h]; simpa using hd⟩
       · cases h
 
 theorem foldFns_mono (fs : List Fn) (a a' : Acc) (h : foldFns fs a = .ok a') (e : Entry) (he : e ∈ a.list) :
